@@ -21,7 +21,11 @@ type Explorer struct {
 	Errors     []string
 	// OnExec is called after every execution with its choice vector; returning false stops.
 	OnExec func(x *Exec, choices []int) bool
-	stop   bool
+	// ShardN > 0 partitions the tree by the first TWO decisions (c0,c1): this explorer only
+	// descends below pairs with (c0*131+c1) % ShardN == ShardI. Executions with fewer than two
+	// decisions are run by every shard; Owns tells the OnExec callback whether to count one.
+	ShardI, ShardN int
+	stop           bool
 }
 
 // Choices returns the choice vector of an execution.
@@ -80,8 +84,19 @@ func (e *Explorer) explore(prefix []int, prefixCost int, body func()) {
 	cost := prefixCost
 	for i := len(prefix); i < len(x.Points); i++ {
 		p := x.Points[i]
+		// sharding: the tree is partitioned by the first TWO decisions (c0, c1); executions that
+		// fix fewer than two decisions are run by every shard (they discover the decision points)
+		if e.ShardN > 0 && i >= 2 {
+			c0, c1 := x.Points[0].Taken, x.Points[1].Taken
+			if (c0*131+c1)%e.ShardN != e.ShardI {
+				break
+			}
+		}
 		// decisions after the prefix were all defaults (cost 0)
 		for alt := 1; alt < p.N; alt++ {
+			if e.ShardN > 0 && i == 1 && (x.Points[0].Taken*131+alt)%e.ShardN != e.ShardI {
+				continue
+			}
 			c := cost + p.AltCost
 			if e.Bound >= 0 && c > e.Bound {
 				continue
@@ -97,4 +112,19 @@ func (e *Explorer) explore(prefix []int, prefixCost int, body func()) {
 			}
 		}
 	}
+}
+
+// Owns reports whether an execution (by its choice vector) is counted by shard i of n.
+func Owns(choices []int, i, n int) bool {
+	if n <= 1 {
+		return true
+	}
+	c0, c1 := 0, 0
+	if len(choices) > 0 {
+		c0 = choices[0]
+	}
+	if len(choices) > 1 {
+		c1 = choices[1]
+	}
+	return (c0*131+c1)%n == i
 }
